@@ -117,6 +117,13 @@ class LineReach:
                 for c in lst:
                     self.codes[c] = label
         self.hit = {label: set() for label in functions}
+        # every line that carries code (statement starts and continuation lines), per label: the denominator of the reach
+        self.total = {label: set() for label in functions}
+        for c, label in self.codes.items():
+            first = c.co_firstlineno
+            for _s, _e, ln in c.co_lines():
+                if ln is not None and ln != first:
+                    self.total[label].add(ln)
         self.installed = False
 
     def install(self):
